@@ -70,3 +70,64 @@ Example C05_nonvacuous :
   fst (prun ex_parser (init_filt (mk_plain_client ex_data (repeat (RSize 1) 20)))) =
     [inl [65; 66; 67]; inl [67; 68; 69; 70; 71; 72; 73; 74; 75]; inr 9%Z].
 Proof. vm_compute. split; reflexivity. Qed.
+
+(* ---- the multi-volume layer (IO/MultiNodeDefs.v): data nodes, dataset table, seeks across nodes ---- *)
+From LA Require IO.MultiNodeDefs IO.MultiNodeProofs.
+Module MultiNode.
+Import MultiNodeDefs MultiNodeProofs.
+Local Open Scope Z_scope.
+
+(* opening a non-empty set of nodes establishes the stream invariant at position 0 *)
+Theorem C05_multinode_open : forall ns bs, ns <> [] -> (0 < bs)%nat ->
+  SInv (mopen ns bs) /\ fpos (mopen ns bs) = 0 /\ nodes (mopen ns bs) = ns /\ bsz (mopen ns bs) = bs.
+Proof. exact mopen_spec. Qed.
+Print Assumptions C05_multinode_open.
+
+(* Refinement to the concatenated stream: for every script whose seeks stay inside the archive, each
+   read returns the bytes of the concatenation at the current position (a non-empty block unless the
+   position is the end), each seek - SEEK_SET, SEEK_CUR or SEEK_END - returns and establishes exactly
+   the requested offset; nothing an observer sees depends on how the bytes are cut into nodes or on
+   the block size, except the lengths of the blocks. *)
+Theorem C05_multinode_refines_stream : forall ops s,
+  SInv s -> ok_run s ops ->
+  SInv (fst (mrun s ops)) /\ outs_ok (flat s) (fpos s) ops (snd (mrun s ops)).
+Proof. exact mrun_refines. Qed.
+Print Assumptions C05_multinode_refines_stream.
+
+(* the same bytes cut into two different node lists, read with two different block sizes: a seek
+   followed by reading to the end delivers the same bytes *)
+Theorem C05_multinode_split_independent : forall ns1 ns2 bs1 bs2 off wh t fuel,
+  concat ns1 = concat ns2 -> ns1 <> [] -> ns2 <> [] -> (0 < bs1)%nat -> (0 < bs2)%nat ->
+  match wh with 0 => Some off | 1 => Some off | 2 => Some (zlen (concat ns1) + off) | _ => None end = Some t ->
+  0 <= t <= zlen (concat ns1) -> (length (concat ns1) < fuel)%nat ->
+  fst (mseek (mopen ns1 bs1) off wh) = t /\ fst (mseek (mopen ns2 bs2) off wh) = t /\
+  concat (read_all fuel (snd (mseek (mopen ns1 bs1) off wh))) = skipn (Z.to_nat t) (concat ns1) /\
+  concat (read_all fuel (snd (mseek (mopen ns2 bs2) off wh))) = skipn (Z.to_nat t) (concat ns1).
+Proof. exact seek_read_split_independent. Qed.
+Print Assumptions C05_multinode_split_independent.
+
+(* a SEEK_SET outside the archive is refused *)
+Theorem C05_multinode_seek_outside_refused : forall s off,
+  SInv s -> off < 0 \/ total (nodes s) < off -> fst (seek_set s off) = M_FATAL.
+Proof. exact seek_set_refused. Qed.
+Print Assumptions C05_multinode_seek_outside_refused.
+
+(* SEEK_END outside the archive is refused too (false of the pinned code, which landed on an arbitrary
+   offset of the first node for a target before the first byte and accepted targets beyond the end) *)
+Theorem C05_multinode_seek_end_outside_refused : forall s off,
+  SInv s -> 0 < off \/ off < - total (nodes s) -> fst (seek_end s off) = M_FATAL.
+Proof. exact seek_end_refused. Qed.
+Print Assumptions C05_multinode_seek_end_outside_refused.
+
+(* non-vacuity: three nodes with an empty one in the middle of the set, a seek into the last node, a
+   relative seek back across a border and a seek from the end *)
+Example C05_multinode_nonvacuous :
+  let s0 := mopen [[1;2;3]; []; [4;5]; [6]]%N 2 in
+  ok_run s0 [MSeek 4 0; MRead; MSeek (-3) 1; MRead; MSeek (-1) 2; MRead; MRead] /\
+  snd (mrun s0 [MSeek 4 0; MRead; MSeek (-3) 1; MRead; MSeek (-1) 2; MRead; MRead]) =
+    [MPos 4 4; MBlk [5]%N 5; MPos 2 2; MBlk [3]%N 3; MPos 5 5; MBlk [6]%N 6; MBlk [] 6].
+Proof.
+  split; [|vm_compute; reflexivity].
+  cbn [ok_run]. repeat split; try (eexists; split; [vm_compute; reflexivity|vm_compute; split; discriminate]).
+Qed.
+End MultiNode.
